@@ -284,9 +284,12 @@ def verify(repo, rep, clauses, rules=None):
                 elif len(lines) != len(shown):
                     problems['emit'] = '%d line(s) for %d note(s): %s (%s)' % (len(lines), len(shown), [l[2] for l in lines][:4], ctx)
             if 'fold' in clauses and not problems['fold']:
-                want = fold(cds, st0, [lv for lv, _ in want_notes])
+                # the status reflects what this call reports: the fold of the incoming status with the levels of the lines it emits (that the right notes
+                # are emitted is the 'emit' / 'levels' clauses' business)
+                shown_levels = [meth if meth in ('fail', 'warn') else 'info' for meth, _n, _t in lines]
+                want = fold(cds, st0, shown_levels)
                 if r['ret'] != want:
-                    problems['fold'] = 'severity fold broken: incoming status %s with notes %s returns %r, expected %r (%s)' % (st0, [lv for lv, _ in want_notes], r['ret'], want, ctx)
+                    problems['fold'] = 'severity fold broken: incoming status %s with reported notes %s returns %r, expected %r (%s)' % (st0, shown_levels, r['ret'], want, ctx)
             if 'levels' in clauses and not problems['levels']:
                 good = want_notes[0][0] == 'info'
                 got = [(meth, note) for meth, note, _ in lines]
@@ -300,10 +303,10 @@ def verify(repo, rep, clauses, rules=None):
         if 'noninterference' in clauses:
             by_input = {}
             for (dh, hk, pres, st0), r in results.items():
-                by_input.setdefault((dh, hk, st0), set()).add((r['ret'], tuple(r['unknown'])))
+                by_input.setdefault((dh, hk, st0, pres[4]), set()).add((r['ret'], tuple(r['unknown'])))      # pres[4]: names advertised before are input, not presentation
             for k, v in by_input.items():
                 if len(v) > 1 and not problems['noninterference']:
-                    problems['noninterference'] = 'the status / unknown-name list for (%s, %r) depends on presentation state (-b / -v / -l, column width, earlier names): %s' % (alg_type, name, sorted(v))
+                    problems['noninterference'] = 'the status / unknown-name list for (%s, %r) depends on presentation state (-b / -v / -l, column width): %s' % (alg_type, name, sorted(v))
         for c in clauses:
             nobl += 1
             rep.check(rules.get(c, c), 'per-name renderer, %s clause: %s %r over sizes x batch x verbose x incoming status' % (c, alg_type, name), problems[c] is None, oa,
